@@ -652,4 +652,31 @@ theorem run_blocked : ∀ (ops : List Op) (n : Node), n.enabled > selfCodeVersio
         simp only at e2 c2 l2 r2
         exact ⟨by rw [e2, e1], by rw [c2, c1], by rw [l2, l1], by simp [ranIdxs_append, r1, r2]⟩
 
+/-! ## Loading a dump answers the subscribers it covers (repair D61) -/
+
+theorem mem_coveredWaiting {w : List (Nat × List (Nat × Nat))} {la : Nat} {p : Nat × List (Nat × Nat)} :
+    p ∈ coveredWaiting w la ↔ p ∈ w ∧ p.1 ≤ la := by
+  simp [coveredWaiting, List.mem_mergeSort, List.mem_filter]
+
+theorem coveredWaiting_sorted (w : List (Nat × List (Nat × Nat))) (la : Nat) :
+    (coveredWaiting w la).Pairwise (fun a b => a.1 ≤ b.1) := by
+  have := List.pairwise_mergeSort (le := fun a b : Nat × List (Nat × Nat) => decide (a.1 ≤ b.1))
+    (by intro a b c; simp only [decide_eq_true_eq]; omega)
+    (by intro a b; simp only [Bool.or_eq_true, decide_eq_true_eq]; omega)
+    (w.filter (fun p => decide (p.1 ≤ la)))
+  simpa only [decide_eq_true_eq, coveredWaiting] using this
+
+theorem ranIdxs_callbackOpen (l : List (Nat × Nat)) : ranIdxs (l.map (fun s => Ev.callbackOpen s.2)) = [] := by
+  induction l with
+  | nil => rfl
+  | cons x xs ih => simpa [ranIdxs] using ih
+
+theorem ranIdxs_loadDumpEvents (n : Node) (d : Dump) (c : Bool) : ranIdxs (loadDumpEvents n d c) = [] := by
+  unfold loadDumpEvents
+  split
+  · rfl
+  · induction coveredWaiting n.waiting d.last.idx with
+    | nil => rfl
+    | cons p ps ih => simp [List.flatMap_cons, ranIdxs_append, ranIdxs_callbackOpen, ih]
+
 end PSO.Versions
